@@ -19,7 +19,7 @@ fn main() {
         let to: u64 = args[5].parse().unwrap();
         let f: vharness::monitor::CaseFn = match (args[2].as_str(), stream) {
             ("C15", 1) => vharness::checks_misc::c15_soup_case,
-            ("C13", 1) => vharness::checks_conc::c13_case,
+            ("C13", 1) | ("C13", 2) => vharness::checks_conc::c13_case,
             ("C14", 1) => vharness::checks_conc::c14_case,
             _ => usage(),
         };
@@ -138,7 +138,7 @@ fn replay(path: &str) -> i32 {
                 ("C11", 1) => vharness::checks_hist::c11_case(&mut rng, &mut st),
                 ("C12", 1) => vharness::checks_hist::c12_case(&mut rng, &mut st),
                 ("C12", 2) => vharness::checks_hist::c12_reuse_case(&mut rng, &mut st),
-                ("C13", 1) => vharness::checks_conc::c13_case(&mut rng, index, &mut st),
+                ("C13", 1) | ("C13", 2) => vharness::checks_conc::c13_case(&mut rng, index, &mut st),
                 ("C14", 1) => {
                     let progress = std::sync::atomic::AtomicU64::new(0);
                     vharness::checks_conc::c14_round(&mut rng, index, &mut st, &progress)
